@@ -40,6 +40,7 @@ var props = map[string]*propInfo{
 	"C07": {},
 	"C09": {},
 	"C10": {},
+	"C11": {},
 }
 
 func loadInfo(bin, id string, p *propInfo) error {
